@@ -19,7 +19,7 @@ ASSUMPTIONS = [
 KINDS = "DTECPBFAH"      # E = a bare "##" line (directive with empty text); P = a "#!pragma" comment
 
 
-def render(seq):
+def render(seq, gtf=False):
     lines, nf, nd = [], 0, 0
     for k in seq:
         if k == "D":
@@ -37,7 +37,10 @@ def render(seq):
             lines.append("")
         elif k == "F":
             nf += 1
-            lines.append("c1\ts\tgene\t%d\t%d\t.\t+\t.\tID=f%d;Name=n%d" % (nf * 10, nf * 10 + 5, nf, nf))
+            if gtf:
+                lines.append('c1\ts\tCDS\t%d\t%d\t.\t+\t0\tgene_id "f%d"; transcript_id "n%d";' % (nf * 10, nf * 10 + 5, nf, nf))
+            else:
+                lines.append("c1\ts\tgene\t%d\t%d\t.\t+\t.\tID=f%d;Name=n%d" % (nf * 10, nf * 10 + 5, nf, nf))
         elif k == "A":
             lines.append("##FASTA")
         elif k == "H":
@@ -93,7 +96,8 @@ def body(ch, ctx):
     mode, form, cl, n, head = ctx.shard
     alpha = KINDS if mode == "full" else "DCBFA"
     seq = head + "".join(ch.choose("k%d" % i, alpha) for i in range(len(head), n))
-    lines = render(seq)
+    gtf = (n + cl) % 2 == 1 and form != "gz_crlf"          # half of the shards write their feature lines as GTF
+    lines = render(seq, gtf)
     text = "\n".join(lines) + ("\n" if lines else "")
     exp_dirs, exp_feats = expected(lines)
     wd = ctx.fresh_dir()
@@ -119,7 +123,7 @@ def body(ch, ctx):
     after_marker = any(k in "AH" for k in seq[:-1])
     ctx.nontrivial(dir_after_window or after_marker or ("F" in seq and any(k in "CB" for k in seq)))
     ctx.sample(lambda: dict(kinds=seq, checklines=cl, form=form, text=text))
-    sig = dict(form=form, directive_after_window=dir_after_window, fasta=("A" in seq or "H" in seq))
+    sig = dict(form=form, directive_after_window=dir_after_window, fasta=("A" in seq or "H" in seq), gtf=gtf)
     ctx.outcome((len(exp_dirs), len(exp_feats), dir_after_window, after_marker))
 
     if form == "string" and not text:
@@ -131,8 +135,14 @@ def body(ch, ctx):
         ctx.check(list(it.directives) == exp_dirs, "iterator-directives-differ", dict(sig, round=rnd), text=text,
                   got=list(it.directives), expected=exp_dirs)
     # another iterator over another file lives at the same time: each keeps its own directives
-    other = gffutils.DataIterator(dbutil.write_text(wd, "other.gff", "##other directive\nc9\ts\tgene\t1\t2\t.\t+\t.\tID=o1\n"), checklines=cl)
+    other_text = "##other directive\nc9\ts\tgene\t1\t2\t.\t+\t.\tID=o1\n"
+    if form == "string":
+        other = gffutils.DataIterator(other_text, checklines=cl, from_string=True)
+    else:
+        other = gffutils.DataIterator(dbutil.write_text(wd, "other.gff", other_text), checklines=cl)
     n_other = len(list(other))
+    again = [str(f) for f in it]
+    ctx.check(again == exp_feats, "iterator-features-changed-by-another-iterator", sig, text=text, got=again, expected=exp_feats)
     ctx.check(n_other == 1 and list(other.directives) == ["other directive"], "second-iterator-wrong", sig, got=list(other.directives))
     ctx.check(list(it.directives) == exp_dirs, "iterator-directives-changed-by-another-iterator", sig, text=text,
               got=list(it.directives), expected=exp_dirs)
